@@ -94,10 +94,9 @@ class Rules(FDE.Rules):
         Helpers = (NodeCount, NodesWorlds, WorldIndex)
 
         def _get_node_targets(self, node, branch, /):
-            # Only count least-applied-to nodes
-            if not self[NodeCount].isleast(node, branch):
-                return
-
+            # Every (node, world) pair is applied to at most once. Nodes that are
+            # applied to less are preferred by the scores below, not filtered out
+            # here, since a node without an accessible world would starve the rest.
             s = self.sentence(node)
             si = s.lhs
             if self.new_negated(self.negated):
@@ -122,8 +121,6 @@ class Rules(FDE.Rules):
         def score_candidate(self, target, /) -> float:
             if target.get('flag'):
                 return 1.0
-            # We are already restricted to least-applied-to nodes by
-            # ``_get_node_targets()``
             # Check for closure
             if self[AdzHelper].closure_score(target) == 1:
                 return 1.0
